@@ -816,3 +816,12 @@ def areas(tier, seed):
              f"shift, renumbering, rigid rotation, Cartesian input, xyz-only source, fan subdivisions, all 15 rule/order pairs, cache sequences; "
              f"the meshgen catalogue ({tier}) for per-face accuracy and 4*pi of closed meshes; all 15 quadrature tables; small faces (0.002..1 degree across at 7 places incl. both poles and the antimeridian: non-negative, relative 1e-5, Cartesian input, fan additivity); area functions run compiled")
     return result(run.cases, len(distinct), run.failures, bound, samples)
+
+
+
+def consumers(tier, seed):
+    """the cached face areas a grid reports are unchanged by operations that only read them (shared machinery: standins.C03.consumers - every watched variable is compared with a copy taken before each of 20
+    read-only operations: differences, gradients, aggregations, integration, remapping, subsetting, tree queries, plotting
+    conversions, exports, area / bounds / dual construction)"""
+    from .C03 import consumers as _consumers
+    return _consumers(tier, seed, tables=('face_areas',), oracle_after=False)
